@@ -2,8 +2,10 @@
 # seedstore.py <property> <letter> <demo-pkg-dir> <caught_by|MISSED> <needs text> : archive a confirmed seeded change
 import sys, os, shutil, json, subprocess
 pid, L, pkg, caught, needs = sys.argv[1:6]
-src = f"/tmp/seed-{pid}/OUT"
-dst = f"/verif/seeded/{pid}-{L}"
+rnd = os.environ.get("SEED_ROUND", "1")
+src = f"/tmp/seed-{pid}/OUT" if rnd == "1" else f"/tmp/seed{rnd}-{pid}/OUT"
+name = L if rnd == "1" else {"A": "C", "B": "D"}[L]
+dst = f"/verif/seeded/{pid}-{name}"
 os.makedirs(dst, exist_ok=True)
 shutil.copy(f"{src}/{L}.patch", f"{dst}/patch.diff")
 demo = f"{src}/{L}_demo_test.go"
@@ -19,7 +21,7 @@ meta = {
     "demo": f"copy demo_test.go.txt to <repo>/{pkg}/zz_seed_demo_test.go and run: go test -vet=off -count=1 ./{pkg}/",
     "confirmed": f"scripts/seedverify.sh {pid} <seed OUT dir> {L} {pkg} on a scratch worktree of /repo at {head}: patch applies, go build ./... ok, full test suite (go test -vet=off -count=1 ./...) passes with the change, demo fails with the change and passes without it",
     "caught_by": caught,
-    "check_command": f"git -C /repo apply /verif/seeded/{pid}-{L}/patch.diff && ./run {caught.split()[0] if caught != 'MISSED' else pid} quick ; git -C /repo checkout -- .",
+    "check_command": f"git -C /repo apply /verif/seeded/{pid}-{name}/patch.diff && ./run {caught.split()[0] if caught != 'MISSED' else pid} quick ; git -C /repo checkout -- .",
 }
 json.dump(meta, open(f"{dst}/meta.json", "w"), indent=1)
 print("stored", dst)
